@@ -46,16 +46,17 @@ def cache_load(url, replace_file=False):
             datetime.datetime.now() - CACHE_AGE:
         try:
             data = urllib2.urlopen(url).read()
-            data = data.decode("utf-8")
         except Exception as exc:
             print("failed loading '%s': %s" % (url, exc))
             return
 
-        file_obj = open(cache_file, "w")
-        file_obj.write(str(data))
+        # Keep the bytes as they are: the XML declaration of the resource
+        # names its encoding, which need not be UTF-8.
+        file_obj = open(cache_file, "wb")
+        file_obj.write(data)
         file_obj.close()
 
-    return open(cache_file)
+    return open(cache_file, "rb")
 
 
 class Terminologies(dict):
